@@ -22,6 +22,8 @@ import (
 	banktypes "github.com/cosmos/cosmos-sdk/x/bank/types"
 	distrtypes "github.com/cosmos/cosmos-sdk/x/distribution/types"
 	stakingkeeper "github.com/cosmos/cosmos-sdk/x/staking/keeper"
+	transfertypes "github.com/cosmos/ibc-go/v7/modules/apps/transfer/types"
+	clienttypes "github.com/cosmos/ibc-go/v7/modules/core/02-client/types"
 	stakingtypes "github.com/cosmos/cosmos-sdk/x/staking/types"
 	"github.com/ethereum/go-ethereum/accounts/abi"
 	"github.com/ethereum/go-ethereum/common"
@@ -93,6 +95,7 @@ func pceqBuild(seed int64, kind string) *pceqState {
 	if kind == "wdOther" {
 		add(S, distrtypes.NewMsgSetWithdrawAddress(S.Addr, ew.Roles["W"].Addr))
 	}
+	OpenLoopbackChannel(n)
 	if kind == "slashed" {
 		// a vesting account past its vesting but inside its lockup, funded for fees
 		vx := w.Acct("vx1")
@@ -241,6 +244,9 @@ func (st *pceqState) native(ctx sdk.Context, c pceqCase, amt *big.Int) (ok bool,
 		msgs = []sdk.Msg{&distrtypes.MsgSetWithdrawAddress{DelegatorAddress: S.Addr.String(), WithdrawAddress: st.wdTarget(c).String()}}
 	case "withdrawCommission":
 		msgs = []sdk.Msg{&distrtypes.MsgWithdrawValidatorCommission{ValidatorAddress: sdk.ValAddress(S.Addr).String()}}
+	case "ibcTransfer":
+		msgs = []sdk.Msg{transfertypes.NewMsgTransfer("transfer", "channel-0", cn, S.Addr.String(), "haqq1receiveronotherside",
+			clienttypes.NewHeight(1, 1_000_000), 0, "")}
 	default:
 		panic("native: " + c.M)
 	}
@@ -301,6 +307,10 @@ func (st *pceqState) precompile(ctx sdk.Context, c pceqCase, amt *big.Int) (ok b
 	case "withdrawCommission":
 		to = distrPC
 		data, err = distrABI.Pack("withdrawValidatorCommission", sdk.ValAddress(st.S.Addr).String())
+	case "ibcTransfer":
+		to = ics20PC
+		data, err = ics20ABI.Pack("transfer", "transfer", "channel-0", "aISLM", amt, who, "haqq1receiveronotherside",
+			icsHeight{RevisionNumber: 1, RevisionHeight: 1_000_000}, uint64(0), "")
 	default:
 		panic("precompile: " + c.M)
 	}
